@@ -612,32 +612,21 @@ func c14R5(c *Ctx) {
 			c.check(hit == nil, "resetToStandby/clears."+fld, c.ipos(cas), "every reset clears the tunnel flag", "a reset can leave the tunnel flag set for the next transfer", c.pathStr(path)...)
 			continue
 		}
-		// pointer fields: cleared whenever loaded non-nil
-		hit, path := reachFrom(won, 0, isReturn, func(in ssa.Instruction) bool {
-			if isClear(in) {
-				return true
-			}
-			// the nil edge of the field's load test also counts (nothing to clear)
-			return false
-		})
-		if hit != nil {
-			// acceptable only if the path goes through the == nil edge of a load of this field
-			okNil := false
-			for _, b := range path {
-				for _, fc := range factsAt(b) {
-					op, x, y, ok := cmpFact(fc)
-					if ok && op == token.EQL && (isNilConst(x) || isNilConst(y)) {
-						for _, v := range []ssa.Value{x, y} {
-							if call, _ := callOf(v); call != nil && isAtomicOnField(call, fld, "Load") {
-								okNil = true
-							}
-						}
-					}
+		// pointer fields: cleared whenever loaded non-nil — from the CAS-won edge no exit is reachable without the clear,
+		// except over the edge on which a load of this very field was found nil (nothing to clear)
+		hit, path := reachFromE(won, 0, isReturn, isClear, func(from, to *ssa.BasicBlock) bool {
+			for _, fc := range edgeFactsTo(from, to) {
+				op, x, y, ok := cmpFact(fc)
+				if !ok || op != token.EQL || !isNilConst(y) {
+					continue
+				}
+				if call, _ := callOf(x); call != nil && isAtomicOnField(call, fld, "Load") {
+					return true
 				}
 			}
-			// paths are merged after the if; accept when a guarded clear exists
-			_ = okNil
-		}
+			return false
+		})
+		c.check(hit == nil, "resetToStandby/always-clears."+fld, c.ipos(cas), "every reset that finds the pointer set clears it", "a reset can return with "+fld+" still set: it stays attached to the next transfer", c.pathStr(path)...)
 		guardedClear := false
 		eachInstr(f, func(in ssa.Instruction) {
 			if !isClear(in) {
